@@ -13,10 +13,13 @@ Import ListNotations.
 Local Open Scope string_scope.
 
 (* kinds: A Array<Int>  L List<Int>  U heap Tuple  T Table<Int,Int>  R Tree<Int,Int>
-          K Table<String,String>  S String  G Range *)
+          K Table<String,String>  S String  G range(0,n)  H range(5,5+n)  J range(0,3n,3)
+          V slice(array,0,3n,3) *)
 Definition contract : list (string * string * list cexn) := [
-  ("get_len",  "ALUG", [IndexError]);   ("get_neg",  "ALUG", [IndexError]);
-  ("get_far",  "ALUG", [IndexError]);   ("get_max",  "ALUG", [IndexError]);  ("get_min", "ALUG", [IndexError]);
+  ("get_len",  "ALUGHJV", [IndexError]);   ("get_neg",  "ALUGHJV", [IndexError]);
+  ("get_far",  "ALUGHJV", [IndexError]);   ("get_max",  "ALUGHJV", [IndexError]);  ("get_min", "ALUGHJV", [IndexError]);
+  (* indices whose product with the step wraps around in int64 *)
+  ("get_wrap", "ALUGHJV", [IndexError]);   ("get_wrap2", "ALUGHJV", [IndexError]);
   ("set_len",  "ALU", [IndexError]);    ("set_neg",  "ALU", [IndexError]);
   ("set_max",  "ALU", [IndexError]);    ("set_min",  "ALU", [IndexError]);
   ("popat_len", "ALU", [IndexError]);   ("popat_neg", "ALU", [IndexError]);
@@ -47,8 +50,8 @@ Definition contract : list (string * string * list cexn) := [
   (* a resize the container cannot honour *)
   ("resize_small", "TRK", [FormatError]);  ("resize_tree", "R", [FormatError]);
   (* unimplemented class or member, cast to another type *)
-  ("unimplemented", "ALUTRKSG", [ClassError]); ("sort_list", "L", [ClassError]);
-  ("cast_wrong", "ALUTRKSG", [ValueError]);
+  ("unimplemented", "ALUTRKSGHJV", [ClassError]); ("sort_list", "L", [ClassError]);
+  ("cast_wrong", "ALUTRKSGHJV", [ValueError]);
   (* too few format arguments *)
   ("print_fewargs", "S", [FormatError]);   ("print_fewargs_dollar", "S", [FormatError])
 ].
